@@ -2,8 +2,8 @@
 
 CHECK = {
     "harnesses": [
-        {"exe": "c17_pool", "flavour": "plain", "cases": (1800, 120000), "procs": (6, 10), "subs": ["pool"]},
-        {"exe": "c17_pool", "flavour": "tsan", "cases": (300, 20000), "procs": (2, 4), "subs": ["pool"]},
+        {"exe": "c17_pool", "flavour": "plain", "cases": (4200, 120000), "procs": (6, 10), "subs": ["pool"]},
+        {"exe": "c17_pool", "flavour": "tsan", "cases": (600, 20000), "procs": (2, 4), "subs": ["pool"]},
         {"exe": "c17_model", "flavour": "plain", "cases": (8000, 40000), "procs": (2, 4), "subs": ["model"]},
     ],
     "confirm": (5, 2),
